@@ -61,7 +61,7 @@ Theorem C20_decisive : forall pre l post h,
   Forall passive pre -> intervenes l = true -> can_intervene (lkind l) = true ->
   snd (serve (pre ++ l :: post) full h) = 0 /\
   let v := client_view (fst (serve (pre ++ l :: post) full h)) in
-  v_hijacked v = false /\ v_status v = documented_status (lkind l) /\ v_body v <> [].
+  v_hijacked v = false /\ v_status v = documented_status l /\ v_body v <> [].
 Proof. exact decisive. Qed.
 Print Assumptions C20_decisive.
 
